@@ -212,7 +212,13 @@ def _make_data_fillna_scalar(self, value):
 @requires_closed_match
 def _fillna_with_stairs(self, value):
     # value is Stairs
-    return self.fillna(0) + value * self.isna()
+    filled = self.fillna(0) + value.fillna(0) * self.isna()
+    result = filled.mask(self.isna() & value.isna())
+    if not self.number_of_steps and value.number_of_steps:
+        result._closed = value.closed
+    else:
+        result._closed = self.closed
+    return result
 
 
 # TODO: test
